@@ -63,11 +63,19 @@ def _cleanup():
 def build_driver(race=False):
     """Build harness/cmd/vdriver against /repo's working tree, hooks on."""
     BUILD.mkdir(exist_ok=True)
-    shutil.copy(REPO / "go.sum", HARNESS / "go.sum")
+    harness = HARNESS
+    if str(REPO) != "/repo":
+        # a check pointed at another copy of the repository (VERIF_REPO): build from a scratch copy of the
+        # harness whose replace directive names that copy
+        harness = scratch("harness-") / "harness"
+        shutil.copytree(HARNESS, harness)
+        gm = harness / "go.mod"
+        gm.write_text(gm.read_text().replace("=> /repo", f"=> {REPO}"))
+    shutil.copy(REPO / "go.sum", harness / "go.sum")
     out = BUILD / ("vdriver-race" if race else "vdriver")
     cmd = ["go", "build", "-tags", "verif"] + (["-race"] if race else []) + ["-o", str(out), "./cmd/vdriver"]
     t = time.time()
-    p = subprocess.run(cmd, cwd=HARNESS, env=go_env(), capture_output=True, text=True)
+    p = subprocess.run(cmd, cwd=harness, env=go_env(), capture_output=True, text=True)
     if p.returncode != 0:
         raise Infra("driver build failed:\n" + p.stdout + p.stderr)
     log(f"driver built in {time.time()-t:.1f}s")
